@@ -6,7 +6,7 @@ cd "$(dirname "$0")"
 export CARGO_NET_OFFLINE=true
 [ -f harness/Cargo.lock ] || cp /repo/Cargo.lock harness/Cargo.lock
 (cd harness && cargo build --offline 2>&1 | tail -2 && cargo build --offline --release 2>&1 | tail -2)
-for m in spec/*.tla; do tla-sany "$m" > /dev/null || { echo "SANY failed on $m"; exit 1; }; done
+(cd spec && for m in *.tla; do tla-sany "$m" > /dev/null 2>&1 || { echo "SANY failed on $m"; exit 1; }; done)
 python3 - <<'PY'
 import sys
 sys.path.insert(0, '.')
